@@ -63,6 +63,17 @@ impl VersionRef<'_> {
     pub fn verif_strong_count(&self) -> usize {
         std::sync::Arc::strong_count(&self.version)
     }
+
+    /// A point read through this snapshot's ssts at an explicit timestamp (what a reader that had
+    /// taken its timestamp earlier would see).
+    pub fn verif_load_at(
+        &self,
+        key: &[u8],
+        timestamp: u64,
+        is_tombstone: &mut bool,
+    ) -> Result<Option<Vec<u8>>, SError> {
+        self.load(key, timestamp, is_tombstone)
+    }
 }
 
 /// What the selector chose: levels and the input setsums (hex).
